@@ -26,14 +26,18 @@
      rule table (Engine C)  every row (srcLen, delta) of a bounded domain is a TLC state, the
                             verdict is a state variable, the table is serialised for the harness
                             (Mode = "raw": all byte strings over Alpha; Mode = "body":
-                            Enc(srcLen) \o Enc(tgtSize) \o body for all bodies over Alpha);
+                            Enc(srcLen) \o Enc(tgtSize) \o body for all bodies over Alpha;
+                            Mode = "ops": every sequence of up to MaxOps well-formed commands -- copy(off, size)
+                            with off in OpOffs, size in OpSizes inside the source, or a one-byte insert -- behind
+                            canonical headers, with the exact target size and one byte more: this is where the
+                            *order* of copies matters (forward, backward, backward then forward again));
      theorems               invariants below (result size, prefix-freeness, no trailing bytes);
      trace validation       Mode = "rt": records (src, tgt, delta) produced by go-git's
                             DiffDelta are loaded from ndjson and Bytes(src, Apply(..)) = tgt is
                             evaluated here (Engine B, acceptance predicate in TLA+).          *)
 EXTENDS Naturals, Sequences, FiniteSets, TLC, Json, IOUtils, SequencesExt
 
-CONSTANTS Mode,        \* "raw" | "body" | "rt"
+CONSTANTS Mode,        \* "raw" | "body" | "ops" | "rt"
           Alpha,       \* representative bytes
           SrcLens,     \* source lengths (contents are Src(n))
           TgtSizes,    \* body mode: declared target sizes
@@ -42,6 +46,7 @@ CONSTANTS Mode,        \* "raw" | "body" | "rt"
           OutFile,     \* rows are written here (ndjson); "" = do not write
           InFile,      \* rt mode: recorded (src, tgt, delta) triples
           Seed,
+          OpOffs, OpSizes, MaxOps,   \* ops mode: well-formed command sequences (copy offsets / sizes, number of commands)
           RawFirst,    \* raw mode: only strings whose first byte is in this set (256 = the empty string); lets several TLC runs share the table
           PairLen,     \* > 0: also write the symbolic (src, tgt) pairs over {A,B}^<=PairLen for the round-trip half
           Split        \* TRUE: one initial state per part of the domain, rows are successors (parallel workers)
@@ -148,26 +153,56 @@ TgtFor(n) == IF TgtSizes # {} THEN TgtSizes
 TgtAll == UNION {TgtFor(n) : n \in SrcLens}
 \* the symbolic (source, target) pairs for the round-trip half; the harness expands every
 \* symbol to a block of bytes (1, 16 or 16*4097 bytes) and records go-git's DiffDelta output
+\* ops mode.  A copy command as git's encoder writes it: zero argument bytes are omitted, size 0x10000 has no size byte.
+ByteOf(x, i) == (x \div Pow(256, i)) % 256
+EncCopy(off, size) ==
+  LET sz  == IF size = 65536 THEN 0 ELSE size
+      oi  == SelectSeq(<<0, 1, 2, 3>>, LAMBDA i : ByteOf(off, i) # 0)
+      si  == SelectSeq(<<0, 1, 2>>, LAMBDA i : ByteOf(sz, i) # 0)
+      flg == (IF ByteOf(off, 0) # 0 THEN 1 ELSE 0) + (IF ByteOf(off, 1) # 0 THEN 2 ELSE 0) + (IF ByteOf(off, 2) # 0 THEN 4 ELSE 0)
+             + (IF ByteOf(off, 3) # 0 THEN 8 ELSE 0) + (IF ByteOf(sz, 0) # 0 THEN 16 ELSE 0) + (IF ByteOf(sz, 1) # 0 THEN 32 ELSE 0)
+             + (IF ByteOf(sz, 2) # 0 THEN 64 ELSE 0)
+  IN <<128 + flg>> \o [j \in 1..Len(oi) |-> ByteOf(off, oi[j])] \o [j \in 1..Len(si) |-> ByteOf(sz, si[j])]
+OpsFor(n) == {[k |-> "copy", off |-> o, len |-> z] : <<o, z>> \in {<<o, z>> \in OpOffs \X OpSizes : o + z <= n}} \cup {[k |-> "ins", off |-> 0, len |-> 1]}
+EncOp(op) == IF op.k = "copy" THEN EncCopy(op.off, op.len) ELSE <<1, 127>>
+RECURSIVE EncOps(_, _)
+EncOps(ops, i) == IF i > Len(ops) THEN <<>> ELSE EncOp(ops[i]) \o EncOps(ops, i + 1)
+OpsTotal(ops) == LET S[i \in 0..Len(ops)] == IF i = 0 THEN 0 ELSE S[i-1] + ops[i].len IN S[Len(ops)]
+OpsRows(n) == UNION {{[s |-> n, d |-> Enc(n) \o Enc(OpsTotal(ops) + extra) \o EncOps(ops, 1)] : extra \in {0, 1}}
+                     : ops \in UNION {[1..m -> OpsFor(n)] : m \in 1..MaxOps}}
+
+\* order of the copies of an accepted delta (abstract scenario key): "fwd" every copy starts at or after the end of the
+\* previous one; "back" some copy starts before the end of the previous one; "back-fwd" a backward copy is later
+\* followed by a forward one
+CopySegs(segs) == SelectSeq(segs, LAMBDA g : g.k = "copy")
+Order(segs) == LET c == CopySegs(segs)
+                   back(i) == i > 1 /\ c[i].off < c[i-1].off + c[i-1].len
+                   fwd(i)  == i > 1 /\ c[i].off >= c[i-1].off + c[i-1].len
+               IN IF \E i, j \in 1..Len(c) : i < j /\ back(i) /\ fwd(j) THEN "back-fwd"
+                  ELSE IF \E i \in 1..Len(c) : back(i) THEN "back" ELSE "fwd"
+
 SymStrs == UNION {[1..n -> {"A", "B"}] : n \in 0..PairLen}
 Pairs == {[a |-> x, b |-> y] : x \in SymStrs, y \in SymStrs}
 Parts == IF Mode = "raw" THEN {[first |-> b] : b \in (Alpha \cup {256}) \cap RawFirst}
          ELSE IF Mode = "body" THEN {[s |-> n, t |-> t] : <<n, t>> \in {<<n, t>> \in SrcLens \X TgtAll : t \in TgtFor(n)}}
+         ELSE IF Mode = "ops" THEN {[s |-> n] : n \in SrcLens}
          ELSE {}
 StartingWith(b) == IF b = 256 THEN (IF MinLen = 0 THEN {<<>>} ELSE {})
                    ELSE {x \in AllStrs : Len(x) > 0 /\ x[1] = b}
 RowsOf(p) == IF Mode = "raw"
              THEN UNION {{[s |-> n, d |-> x] : n \in RawSrcs(x)} : x \in StartingWith(p.first)}
+             ELSE IF Mode = "ops" THEN OpsRows(p.s)
              ELSE {[s |-> p.s, d |-> Enc(p.s) \o Enc(p.t) \o x] : x \in AllStrs}
-Domain == IF Mode \in {"raw", "body"} THEN UNION {RowsOf(p) : p \in Parts} ELSE {}
+Domain == IF Mode \in {"raw", "body", "ops"} THEN UNION {RowsOf(p) : p \in Parts} ELSE {}
 
 HdrTerminated(d) == Len(d) >= 2 /\ LET h1 == Hdr(d, 1) IN h1.n <= Len(d) /\ d[h1.n - 1] < 128 /\ d[Hdr(d, h1.n).n - 1] < 128
 SmallSrc == 300      \* expected bytes are written for sources up to this length; longer: segments only
 Row(x) == LET r == Apply(x.s, x.d) IN
-          [s |-> x.s, d |-> x.d, ok |-> r.ok, why |-> r.why, segs |-> r.segs, kinds |-> Kinds(r.segs),
+          [s |-> x.s, d |-> x.d, ok |-> r.ok, why |-> r.why, segs |-> r.segs, kinds |-> Kinds(r.segs), order |-> Order(r.segs),
            t |-> Declared(x.d), term |-> HdrTerminated(x.d),
            out |-> IF r.ok /\ x.s <= SmallSrc THEN Bytes(Src(x.s), r.segs) ELSE <<>>]
 
-ASSUME (Mode \in {"raw", "body"} /\ OutFile # "") =>
+ASSUME (Mode \in {"raw", "body", "ops"} /\ OutFile # "") =>
           /\ ndJsonSerialize(OutFile, SetToSeq({Row(x) : x \in Domain}))
           /\ ndJsonSerialize("delta_sources.ndjson", SetToSeq({[n |-> n, bytes |-> Src(n)] : n \in SrcLens}))
 
@@ -213,6 +248,8 @@ PrefixFree == (phase = "row" /\ res.ok /\ HdrTerminated(row.d)) =>
                  \A n \in 0..Len(row.d) - 1 : LET p == SubSeq(row.d, 1, n) IN HdrTerminated(p) => ~Apply(row.s, p).ok
 \* an accepted delta followed by any further byte is rejected (all delta bytes are consumed)
 NoTrailing == (phase = "row" /\ res.ok /\ HdrTerminated(row.d)) => \A b \in Alpha : ~Apply(row.s, Append(row.d, b)).ok
+\* ops mode: a well-formed command sequence with the exact target size is accepted, with one byte more it is rejected
+OpsVerdict == (Mode = "ops" /\ phase = "row") => (res.ok <=> SegLen(res.segs) = Declared(row.d) /\ res.segs # <<>>)
 \* the verdict does not depend on the source contents, only on its length (so Src(n) is representative)
 \* -- holds by construction: Apply takes srcLen only.
 \* the canonical header encoding decodes to itself
